@@ -36,19 +36,46 @@ def reference(P, xi, yi):
     b = np.sort_complex(np.round(w2, 12))
     if len(a) != len(b) or np.max(np.abs(np.sort(a.real) - np.sort(b.real))) > 1e-8 * max(1.0, np.max(np.abs(b))):
         return None
-    if np.min(np.abs(w2)) < 1e-6 * max(1.0, np.max(np.abs(w2))):
-        return None      # "non-zero eigenvalues" must be clearly non-zero
-    return K, w2
+    if np.min(np.abs(w2)) < 1e-3 * max(1.0, np.max(np.abs(w2))):
+        # "non-zero eigenvalues" must be clearly non-zero: a defective zero eigenvalue (Jordan block of size k) appears
+        # numerically as eigenvalues of modulus eps^(1/k) ~ 1e-5 .. 1e-4
+        return None
+    return K, w2, M
 
 
-def cmp_eigs(lam, w2):
+def hocur_reproduces(x, basis, rmax, psi):
+    """precondition of the HOCUR variant: the cross approximation called exactly as amuset_hocur calls it reproduces
+    Psi (whether it does is property C15 / finding F11, not C18: a uniform rank request above the true rank of one
+    bond can make it raise LinAlgError on a singular cross matrix)"""
+    import scikit_tt.data_driven.transform as tf
+    try:
+        h = tf.hocur(x, basis, rmax, repeats=1, multiplier=2, progress=False)
+        got = contract(h.cores).reshape(psi.shape)
+        return bool(np.max(np.abs(got - psi)) <= 1e-8 * max(1.0, float(np.max(np.abs(psi)))))
+    except Exception:
+        return False
+
+
+def cmp_eigs(lam, w2, M):
     lam = np.asarray(lam, dtype=float)
     want = np.real(w2[np.argsort(np.abs(w2 - 1))])
     if lam.shape != want.shape:
         return 'returned %d eigenvalues, matrix EDMD has %d non-zero ones' % (len(lam), len(want))
     tol = 1e-6 * max(1.0, float(np.max(np.abs(want))))
     if np.max(np.abs(np.sort(lam) - np.sort(want))) > tol:
-        return 'eigenvalues %r differ from matrix EDMD %r' % (np.round(lam, 6), np.round(want, 6))
+        # ill-conditioned (nearly defective) spectra: accept iff every returned value, completed by the reference's
+        # imaginary part, is an eigenvalue of a matrix within 1e-10 ||M|| of the reduced EDMD matrix
+        nrm = max(1.0, float(np.linalg.norm(M, 2)))
+        E = np.random.RandomState(0).standard_normal(M.shape)
+        wp = np.linalg.eigvals(M + E * (1e-12 * nrm / np.linalg.norm(E, 2)))
+        if np.max(np.abs(np.sort(np.real(wp)) - np.sort(np.real(w2)))) <= 1e-8 * nrm:
+            # well-conditioned spectrum (a 1e-12 perturbation moves it by less than 1e-8): the strict comparison stands
+            return 'eigenvalues %r differ from matrix EDMD %r' % (np.round(lam, 6), np.round(want, 6))
+        for l in lam:
+            z = w2[np.argmin(np.abs(np.real(w2) - l))]
+            smin = np.linalg.svd(M - (l + 1j * z.imag) * np.eye(M.shape[0]), compute_uv=False)[-1]
+            if smin > 1e-10 * nrm:
+                return 'eigenvalues %r differ from matrix EDMD %r' % (np.round(lam, 6), np.round(want, 6))
     if np.all(np.abs(w2.imag) < 1e-9):
         d = np.abs(lam - 1)
         if np.any(np.diff(d) < -1e-6 * max(1.0, np.max(d))):
@@ -81,13 +108,13 @@ def replay(case):
     # cross approximation hit singular submatrices)
     dims = list(psi.shape)
     rmax = max(int(np.linalg.matrix_rank(psi.reshape(int(np.prod(dims[:b])), -1))) for b in range(1, len(dims)))
-    if not candidates_deficient(psi, rmax, 2):
+    if not candidates_deficient(psi, rmax, 2) and hocur_reproduces(x, basis(), rmax, psi):
         variants.append(('hocur', lambda xs, ys: tedmd.amuset_hocur(x, xs, ys, basis(), max_rank=rmax, multiplier=2)))
     for name, call in variants:
         try:
             singles = [call(xi, yi) for xi, yi in pairs]
-            for k, ((lam, t), (K, w2)) in enumerate(zip(singles, refs)):
-                msg = cmp_eigs(lam, w2)
+            for k, ((lam, t), (K, w2, M)) in enumerate(zip(singles, refs)):
+                msg = cmp_eigs(lam, w2, M)
                 if msg:
                     out.append(('%s:eigenvalues' % name, '%s (pair %d, d=%d m=%d)' % (msg, k, cfg['d'], m)))
                     break
